@@ -66,6 +66,9 @@ func diffMaps(what string, a, b map[string]string) string {
 			return what + ":" + k + ":missing"
 		}
 		if va != vb {
+			if os.Getenv("VERIF_DEBUG") != "" {
+				println("DIFF", what, k, "\n--- a\n"+va+"\n--- b\n"+vb)
+			}
 			return what + ":" + k
 		}
 	}
@@ -101,6 +104,13 @@ func genTwinBook(r *rand.Rand, allowKnown bool) twinBook {
 		last := names[len(names)-1]
 		lastOne := strings.Contains(last[1:], "1")
 		rows := gs.spec.Rows
+		// a repeated key in a vertical map (key uniqueness is deduced from the layout: both containers must refuse, or both
+		// merge, the same rows)
+		if r.Intn(5) == 0 && gs.vkind != "" && len(rows) > 4 && len(rows[3]) > 0 && len(rows[4]) > 0 {
+			dup := append([]string{}, rows[4]...)
+			dup[0] = rows[3][0]
+			rows = append(append([][]string{}, rows...), dup)
+		}
 		// trailing blank data rows (XLSX drops them, CSV keeps them): harmless unless row properties (D35, not generated here)
 		if r.Intn(6) == 0 && gs.vkind == "" {
 			rows = append(rows, make([]string, len(names)))
@@ -220,6 +230,12 @@ func genTwinBook(r *rand.Rand, allowKnown bool) twinBook {
 			use = append(use, []string{strconv.Itoa(i), tag})
 		}
 		b.Sheets = append(b.Sheets, sheetSpec{Name: "RefConf", Rows: ref}, sheetSpec{Name: "UseConf", Rows: use, Meta: map[string]string{"FieldPresence": "true"}})
+	}
+	if r.Intn(5) == 0 {
+		// a worksheet whose name contains '#' (legal in a spreadsheet; its CSV twin is the file <Book>#Zeta#1.csv; sheet files sort as the sheets are ordered),
+		// named by an alias in the schema
+		b.Sheets = append(b.Sheets, sheetSpec{Name: "Zeta#1", Meta: map[string]string{"Alias": "ZetaOne"},
+			Rows: [][]string{{"ID", "Num"}, {"map<uint32, Zeta>", "int32"}, {"id", "num"}, {"1", "10"}, {"2", strconv.Itoa(r.Intn(100))}}})
 	}
 	tb.book = b
 	return tb
